@@ -214,32 +214,34 @@ def q_indel(rng, qid, ref, lattice=None):
 
 
 def q_symmetric_chimera(rng, qid, refs, lattice=LATTICE):
-    """Two exact lattice flanks with the same number of labels from far-apart places: both parts align with
-    *equal* confidence - the tie that makes an unordered map observable."""
-    k = rng.randint(8, 12)
+    """[flank | middle | flank]: three exact lattice windows from far-apart places; the middle has more labels (the
+    first pass takes it), the two flanks have the *same* number of labels, so the two second-pass fragments of this
+    one query align with exactly equal confidence - the tie that makes completion order observable."""
+    k = rng.randint(7, 11)
+    sizes = [k, k + rng.randint(4, 9), k]
     pos = []
     cursor = 0.0
     desc = []
     used = []
-    for _ in range(2):
-        for _try in range(20):
+    for kk in sizes:
+        for _try in range(30):
             ref = rng.choice(refs)
             n = len(ref["pos"])
-            if n < k + 2:
+            if n < kk + 2:
                 continue
-            i = rng.randint(0, n - k)
-            if any(u[0] == ref["id"] and abs(u[1] - i) < 3 * k for u in used):
+            i = rng.randint(0, n - kk)
+            if any(u[0] == ref["id"] and abs(u[1] - i) < 2 * max(sizes) + 4 for u in used):
                 continue
             break
         else:
             return None, None
         used.append((ref["id"], i))
         reverse = rng.random() < 0.5
-        rel = _window_coords(ref, i, k, reverse)
+        rel = _window_coords(ref, i, kk, reverse)
         for p in rel:
             pos.append(cursor + p)
         cursor = pos[-1] + rng.randint(4, 12) * lattice
-        desc.append({"ref": ref["id"], "i": i, "k": k, "reverse": reverse})
+        desc.append({"ref": ref["id"], "i": i, "k": kk, "reverse": reverse})
     return ({"id": qid, "length": float(pos[-1] + 1), "pos": [float(p) for p in pos], "family": "symmetric-chimera"},
             {"kind": "symmetric-chimera", "parts": desc})
 
